@@ -23,9 +23,10 @@ RULE = ('histories over {load, forced load, enforce, edit file} x enforcer index
         'bound for two enforcers (one with enforce_new_defaults off, one on); R = random interleavings of 5-30 steps over '
         '1-3 enforcers with random option values and file contents, with or without a policy directory (edited too) and with or without a main file (which may be deleted); shared defaults with and without deprecated '
         'predecessors (renamed, same-name with changed default, plain). Non-trivial = the history has at least two loads '
-        'of one enforcer or involves two enforcers; distinct = distinct (configuration, history). Stratum `overlap`: two new enforcers registered with the SAME default objects (own files, opposite enforce_new_defaults) perform their first load at the same time, each on its own thread (second one runs at sampled line boundaries of the first, and both in flight): each decides as after a single load, the shared objects are unchanged. Stratum `H1` (faults, exhaustive): ONE enforcer, every history up to the length bound over {load, forced load, enforce, edit, remove the main file, write unparseable content to the main file} that contains a removal or an unparseable write and ends with parseable files (a later edit re-creates / repairs the file); the comparison with a fresh enforcer happens only after the last step, so that the enforcement calls of the comparison itself do not load in between (every prefix is a history of its own). Stratum `F` (faults, random): 1-2 enforcers, random histories over the same operations plus policy-directory edits / unparseable policy-directory files, with fault-then-load-then-repair sequences inserted, every unparseable write repaired later in the history, compared after every step or only after a random subset of steps. While the current files of an enforcer are unparseable (a fresh enforcer raises too) nothing is judged for it (counted as unconstrained.policy-file-unparseable; the statement does not say what a long-lived enforcer does meanwhile); as soon as they are valid again the implicit, explicit and forced loads must all agree with a fresh enforcer. Strata `D0` (systematic) and `D` (random): enforcers constructed with overwrite=False as well as with the default / an explicit overwrite=True (one more option value of the generated worlds; the fresh enforcer of the comparison is built with the same options), a main file or none and a policy directory of two or three files that define overlapping names with different values (the sorted file order decides), and the operations touch (newer modification time, identical bytes) and edit on each single file of the directory and on the main file, a directory file appearing later, and for overwriting enforcers the removal of one directory file; D0 = one enforcer, load, then ONE touch / value edit of ONE file, then load / enforce / forced load, compared after every step or only at the end. An enforcer that does not overwrite merges what it reads into the living store and never removes or recomputes an entry, so it is judged (against a fresh enforcer with the same options that loads the CURRENT files once) only while every definition (file, name) made so far is still made by that file and the file values feeding a default-derived entry are as at construction; otherwise the step is counted as unconstrained.non-overwrite-enforcer-keeps-removed-names / unconstrained.non-overwrite-enforcer-keeps-entry-derived-from-default.')
+        'of one enforcer or involves two enforcers; distinct = distinct (configuration, history). Stratum `overlap`: two new enforcers registered with the SAME default objects (own files, opposite enforce_new_defaults) perform their first load at the same time, each on its own thread (second one runs at sampled line boundaries of the first, and both in flight): each decides as after a single load, the shared objects are unchanged. Stratum `H1` (faults, exhaustive): ONE enforcer, every history up to the length bound over {load, forced load, enforce, edit, remove the main file, write unparseable content to the main file} that contains a removal or an unparseable write and ends with parseable files (a later edit re-creates / repairs the file); the comparison with a fresh enforcer happens only after the last step, so that the enforcement calls of the comparison itself do not load in between (every prefix is a history of its own). Stratum `F` (faults, random): 1-2 enforcers, random histories over the same operations plus policy-directory edits / unparseable policy-directory files, with fault-then-load-then-repair sequences inserted, every unparseable write repaired later in the history, compared after every step or only after a random subset of steps. While the current files of an enforcer are unparseable (a fresh enforcer raises too) nothing is judged for it (counted as unconstrained.policy-file-unparseable; the statement does not say what a long-lived enforcer does meanwhile); as soon as they are valid again the implicit, explicit and forced loads must all agree with a fresh enforcer. Strata `D0` (systematic) and `D` (random): enforcers constructed with overwrite=False as well as with the default / an explicit overwrite=True (one more option value of the generated worlds; the fresh enforcer of the comparison is built with the same options), a main file or none and a policy directory of two or three files that define overlapping names with different values (the sorted file order decides), and the operations touch (newer modification time, identical bytes) and edit on each single file of the directory and on the main file, a directory file appearing later, and for overwriting enforcers the removal of one directory file; D0 = one enforcer, load, then ONE touch / value edit of ONE file, then load / enforce / forced load, compared after every step or only at the end. An enforcer that does not overwrite merges what it reads into the living store and never removes or recomputes an entry, so it is judged (against a fresh enforcer with the same options that loads the CURRENT files once) only while every definition (file, name) made so far is still made by that file and the file values feeding a default-derived entry are as at construction; otherwise the step is counted as unconstrained.non-overwrite-enforcer-keeps-removed-names / unconstrained.non-overwrite-enforcer-keeps-entry-derived-from-default. Stratum `M` (systematic + random): the objects the service owns in every spelling the library accepts - reason and release on the DeprecatedRule (modern), on the new default only (legacy), one on each, ONE DeprecatedRule object handed to two defaults (legacy with different reasons, or modern), DocumentedRuleDefaults sharing one operations list, a default deprecated for removal, one or two scope types - registered in 1-3 enforcers (own options, files defining nothing / unrelated names / the deprecated name / the new name, with or without policy directories of one to three files); after EVERY step of every stratum each public attribute of each default and of each DeprecatedRule object the service constructed (values, printed check and tree shape) and the identity of the object, of its deprecated rule, of the nodes and operand lists of its check tree and of its list attributes equal the snapshot taken before registration.')
 ASSUMPTIONS = ['sharing of sub-objects between registered copies is not alteration: the statement is behavioural, so only '
                'observable attributes (names, check strings, printed checks, tree shape, deprecated fields, scope types) are snapshotted',
+               'identity is part of the snapshot only for what the service can reach through the public attributes of ITS objects (the object, its check tree, its deprecated rule, its lists): loading replacing or writing one of these is alteration; what the enforcer does to its registered copies is not looked at',
                'logical clock on every edit (file and directory)',
                '"loading once" for an enforcer built with overwrite=False = a fresh enforcer with the same options loading the current files once; '
                'judged only while no definition was taken out of its files (such an enforcer keeps entries by design)']
@@ -34,13 +35,16 @@ LEVEL_TEXT = ('All interleavings up to length 3 (thorough: 4) for two enforcers 
               'Histories with faults (main file removed / momentarily unparseable): all of them up to length 4 (thorough: 5) for one enforcer, compared after '
               'the last step, plus random ones over one or two enforcers compared after every step or after a random subset of steps. '
               'Policy directories with two or three files and enforcers with / without overwrite: every (file, touch or value edit, following load flavour) '
-              'combination for one enforcer (480 histories) plus random histories of 4-12 steps over one or two enforcers (quick 160, thorough 6000).')
+              'combination for one enforcer (480 histories) plus random histories of 4-12 steps over one or two enforcers (quick 160, thorough 6000). '
+              'Spellings of the deprecation metadata / shared objects (M): 6 spellings x 6 main files x 1-2 enforcers x 3 flavours of the first load (216 histories) plus random '
+              'histories of 3-10 steps over 1-3 enforcers (quick 64, thorough 4000).')
 LEVEL_NOTE = 'trusted: a fresh Enforcer with re-constructed defaults as the oracle of "loaded once"; the attribute snapshot function'
 PLAN = {'quick': dict(shards=8, wall=150), 'thorough': dict(shards=16, wall=500)}
 MIN = {'overlapping_evaluations': 200, 'evaluations': 300, 'steps_compared': 1500, 'snapshots_compared': 1500, 'forced_reloads': 200, 'merged_or_checks_seen': 100,
        'cases.H1': 300, 'cases.F': 30, 'forced_reloads_after_removal': 60, 'loads_raising_while_unparseable': 100, 'recoveries_judged': 100,
        'cases.D0': 150, 'cases.D': 50, 'nonoverwrite_steps_compared_after_touch_or_edit': 200, 'multi_file_directory_steps_compared': 600,
-       'touches_one_directory_file': 150, 'edits_one_directory_file': 100}
+       'touches_one_directory_file': 150, 'edits_one_directory_file': 100,
+       'cases.M': 55, 'attribute_snapshots_compared': 1500, 'legacy_metadata_snapshots_compared': 140, 'shared_deprecated_rule_snapshots_compared': 70}
 ANCHORS = ['oslo_policy.policy:Enforcer.register_default', 'oslo_policy.policy:Enforcer._handle_deprecated_rule',
            'oslo_policy.policy:Enforcer.load_rules', 'oslo_policy.policy:Enforcer.enforce']
 REQUIRED_ANCHORS = ['oslo_policy.policy:Enforcer.load_rules']
@@ -96,19 +100,88 @@ SAME_SHAPES = ['role:n and role:p', 'role:n or role:p', 'role:p', '(role:n and r
 OLD_SHAPES = ['role:o', 'role:o or role:m', 'role:o and role:m', 'role:n']
 
 
-def make_defaults(policy, with_dep, dshape=0):
-    """Caller-owned defaults; `dshape` selects the shapes of the check strings (leaf / or / and / not at the top)."""
+class Owned(list):
+    """The service's list of defaults plus (`deps`) the DeprecatedRule objects it constructed and handed to them."""
+    deps = ()
+
+
+# stratum M: where the deprecation metadata is spelled and which objects are shared (the `meta` field of a case; 0 = as in the other strata)
+META = 6
+META_LEGACY = (1, 2, 3, 5)         # forms in which some DeprecatedRule lacks a reason / release that the new default supplies
+META_SHARED = (3, 4)               # forms in which ONE DeprecatedRule object is handed to two defaults
+
+
+def make_defaults(policy, with_dep, dshape=0, meta=0):
+    """Caller-owned defaults; `dshape` selects the shapes of the check strings (leaf / or / and / not at the top), `meta` the
+    spelling of the deprecation metadata: 0 modern (reason and release on the DeprecatedRule), 1 legacy (both on the NEW default, the
+    DeprecatedRule has none: accepted with a DeprecationWarning), 2 split (one on each), 3 ONE legacy DeprecatedRule object handed to
+    two defaults that give different reasons, 4 ONE modern DeprecatedRule handed to a DocumentedRuleDefault and a RuleDefault,
+    5 DocumentedRuleDefaults sharing one operations list, a default deprecated for removal, two scope types."""
     new_cs = NEW_SHAPES[dshape % len(NEW_SHAPES)]
     same_cs = SAME_SHAPES[(dshape // 2) % len(SAME_SHAPES)]
     old_cs = OLD_SHAPES[(dshape // 3) % len(OLD_SHAPES)]
+    m = meta % META
+    if m:
+        return make_defaults_meta(policy, with_dep, m, new_cs, same_cs, old_cs)
     if with_dep:
         dep = policy.DeprecatedRule('old', old_cs, deprecated_reason='r', deprecated_since='s')
         dep2 = policy.DeprecatedRule('same', 'role:o or role:m', deprecated_reason='r', deprecated_since='s')
-        return [policy.RuleDefault('new', new_cs, deprecated_rule=dep),
-                policy.RuleDefault('same', same_cs, deprecated_rule=dep2, scope_types=['project']),
-                policy.RuleDefault('plain', 'role:p or rule:helper', description='d')]
-    return [policy.RuleDefault('new', new_cs), policy.RuleDefault('same', same_cs),
-            policy.RuleDefault('plain', 'role:p or rule:helper', description='d')]
+        out = Owned([policy.RuleDefault('new', new_cs, deprecated_rule=dep),
+                     policy.RuleDefault('same', same_cs, deprecated_rule=dep2, scope_types=['project']),
+                     policy.RuleDefault('plain', 'role:p or rule:helper', description='d')])
+        out.deps = [dep, dep2]
+        return out
+    return Owned([policy.RuleDefault('new', new_cs), policy.RuleDefault('same', same_cs),
+                  policy.RuleDefault('plain', 'role:p or rule:helper', description='d')])
+
+
+def make_defaults_meta(policy, with_dep, m, new_cs, same_cs, old_cs):
+    R, D = policy.RuleDefault, policy.DocumentedRuleDefault
+    deps = []
+
+    def dr(name, cs, reason=None, since=None):
+        kw = {}
+        if reason:
+            kw['deprecated_reason'] = reason
+        if since:
+            kw['deprecated_since'] = since
+        deps.append(policy.DeprecatedRule(name, cs, **kw))
+        return deps[-1]
+
+    def kw(dep=None, reason=None, since=None, **more):
+        if with_dep and dep is not None:
+            more['deprecated_rule'] = dep
+            if reason:
+                more['deprecated_reason'] = reason
+            if since:
+                more['deprecated_since'] = since
+        return more
+    ops = [{'path': '/v1/things', 'method': 'GET'}, {'path': '/v1/things/{id}', 'method': 'POST'}]
+    same_old = 'role:o or role:m'
+    if m == 1:
+        dep, dep2 = (dr('old', old_cs), dr('same', same_old)) if with_dep else (None, None)
+        out = [R('new', new_cs, **kw(dep, 'renamed', 'N')), R('same', same_cs, scope_types=['project'], **kw(dep2, 'tightened', 'O')),
+               R('plain', 'role:p or rule:helper', description='d')]
+    elif m == 2:
+        dep, dep2 = (dr('old', old_cs, reason='on the old one'), dr('same', same_old, since='M')) if with_dep else (None, None)
+        out = [R('new', new_cs, **kw(dep, None, 'N')), R('same', same_cs, scope_types=['project'], **kw(dep2, 'on the new one', None)),
+               R('plain', 'role:p or rule:helper', description='d')]
+    elif m == 3:
+        dep, dep2 = (dr('old', old_cs), dr('same', same_old, 'r', 's')) if with_dep else (None, None)
+        out = [R('new', new_cs, **kw(dep, 'create is split out', 'N')), R('same', same_cs, scope_types=['project'], **kw(dep2)),
+               R('plain', 'role:p or rule:helper', description='d'), R('zz', 'role:q or role:x', **kw(dep, 'list is split out', 'O'))]
+    elif m == 4:
+        dep, dep2 = (dr('old', old_cs, 'split', 'N'), dr('same', same_old)) if with_dep else (None, None)
+        out = [D('new', new_cs, 'creates', ops, **kw(dep)), R('same', same_cs, scope_types=['project'], **kw(dep2, 'tightened', 'O')),
+               R('plain', 'role:p or rule:helper', description='d'), R('zz', 'role:q or role:x', description='lists', **kw(dep))]
+    else:
+        dep, dep2 = (dr('old', old_cs), dr('same', same_old)) if with_dep else (None, None)
+        out = [D('new', new_cs, 'creates', ops, **kw(dep, 'renamed', 'N')),
+               R('same', same_cs, scope_types=['system', 'project'], **kw(dep2, 'tightened', 'O')),
+               D('plain', 'role:p or rule:helper', 'going away', ops, deprecated_for_removal=True, deprecated_reason='unused', deprecated_since='P')]
+    out = Owned(out)
+    out.deps = deps
+    return out
 
 
 def shape(check):
@@ -130,6 +203,93 @@ def snap(ds):
                     d.deprecated_for_removal, d.deprecated_reason, d.deprecated_since,
                     (dr.name, dr.check_str, str(dr.check), shape(dr.check), dr.deprecated_reason, dr.deprecated_since) if dr else None))
     return out
+
+
+def freeze(v):
+    if isinstance(v, dict):
+        return ('dict', tuple(sorted((repr(k), freeze(x)) for k, x in v.items())))
+    if isinstance(v, (list, tuple)):
+        return (type(v).__name__, tuple(freeze(x) for x in v))
+    return repr(v)
+
+
+def tree_ids(check, keep):
+    """Identity of the nodes of a check tree and of their operand lists."""
+    keep.append(check)
+    out = [id(check)]
+    rules = getattr(check, 'rules', None)
+    if isinstance(rules, (list, tuple)):
+        keep.append(rules)
+        out.append(id(rules))
+        for r in rules:
+            out.extend(tree_ids(r, keep))
+    inner = getattr(check, 'rule', None)
+    if inner is not None and not isinstance(inner, str):
+        out.extend(tree_ids(inner, keep))
+    return tuple(out)
+
+
+_CLASS_NAMES = {}
+
+
+def public_names(obj):
+    """Public data attributes: properties / class attributes of the type (per type, computed once) and instance attributes (every time)."""
+    t = type(obj)
+    names = _CLASS_NAMES.get(t)
+    if names is None:
+        import inspect
+        names = _CLASS_NAMES[t] = frozenset(n for n in dir(t) if not n.startswith('_') and not inspect.isroutine(getattr(t, n, None)))
+    return sorted(names | {n for n in vars(obj) if not n.startswith('_')})
+
+
+def snap_obj(obj, keep):
+    """EVERY public attribute of one rule object: values (printed check and tree shape, nested deprecated rule, containers by value) and
+    identities (the object, the nodes and operand lists of its check tree, its deprecated rule, its container attributes)."""
+    keep.append(obj)
+    vals, ids = [('class', type(obj).__name__)], [('self', id(obj))]
+    for n in public_names(obj):
+        v = getattr(obj, n, '<absent>')
+        if n == 'check':
+            vals.append((n, str(v), shape(v)))
+            ids.append((n, tree_ids(v, keep)))
+        elif n == 'deprecated_rule' and v and not isinstance(v, (list, tuple, dict, str)):
+            sv, si = snap_obj(v, keep)
+            vals.append((n, sv))
+            ids.append((n, si))
+        else:
+            vals.append((n, freeze(v)))
+            if isinstance(v, (list, dict)):
+                keep.append(v)
+                ids.append((n, id(v), tuple(id(x) for x in v if isinstance(x, (list, dict)))))
+    return tuple(vals), tuple(ids)
+
+
+def snap_all(ds):
+    """Snapshot of everything the service owns: the defaults AND the DeprecatedRule objects it constructed (`ds.deps`), plus which
+    default holds which object.  Returns (per object: label, values, identities) and keeps the objects alive (stable ids)."""
+    keep, out = [], []
+    for i, d in enumerate(ds):
+        out.append(('default %d %s' % (i, getattr(d, 'name', '?')),) + snap_obj(d, keep))
+    for i, dep in enumerate(getattr(ds, 'deps', ())):
+        out.append(('deprecated-rule %d %s' % (i, getattr(dep, 'name', '?')),) + snap_obj(dep, keep))
+    return out, keep
+
+
+def altered(a0, ds):
+    """None, or (mechanism key, detail): what differs between the initial snapshot `a0` and the objects now."""
+    before, now = a0[0], snap_all(ds)[0]
+    for (label, v0, i0), (_, v1, i1) in zip(before, now):
+        if v0 != v1:
+            names = [x[0] for x, y in zip(v0, v1) if x != y] or ['attributes']
+            key = 'caller-owned-deprecated-rule-mutated' if label.startswith('deprecated-rule') else 'caller-owned-default-mutated'
+            return key, {'object': label, 'attributes': names[:4],
+                         'before': [repr(x)[:120] for x, y in zip(v0, v1) if x != y][:2], 'now': [repr(y)[:120] for x, y in zip(v0, v1) if x != y][:2]}
+    for (label, v0, i0), (_, v1, i1) in zip(before, now):
+        if i0 != i1:
+            return 'caller-owned-object-part-replaced', {'object': label, 'attributes': [x[0] for x, y in zip(i0, i1) if x != y][:4]}
+    if len(before) != len(now):
+        return 'caller-owned-default-mutated', {'objects_before': len(before), 'objects_now': len(now)}
+    return None
 
 
 def decisions(enf):
@@ -177,8 +337,10 @@ def keeps_entries(w, with_dep):
 
 def run_history(ctx, case):
     from oslo_policy import policy
-    shared = make_defaults(policy, case['with_dep'], case.get('dshape', 0))
+    shared = make_defaults(policy, case['with_dep'], case.get('dshape', 0), case.get('meta', 0))
     s0 = snap(shared)
+    a0 = snap_all(shared)
+    meta = case.get('meta', 0) % META
     worlds = []
     try:
         for cfg_ in case['enforcers']:
@@ -216,7 +378,7 @@ def run_history(ctx, case):
         def fresh_exception(ww):
             """Name of the exception a fresh enforcer's first load raises for ww's current files (None: it loads)."""
             f = policy.Enforcer(ww['tree'].conf(policy_dirs=ww['dirs'], enforce_new_defaults=ww['flag']), **enforcer_kwargs(ww['ow']))
-            f.register_defaults(make_defaults(policy, case['with_dep'], case.get('dshape', 0)))
+            f.register_defaults(make_defaults(policy, case['with_dep'], case.get('dshape', 0), case.get('meta', 0)))
             try:
                 f.load_rules()
             except Exception as e:
@@ -313,6 +475,16 @@ def run_history(ctx, case):
                 changed = [(a[0], [x for x, y in zip(a, b) if x != y][:2]) for a, b in zip(now, s0) if a != b]
                 ctx.violation('caller-owned-default-mutated', case, {'step': i, 'op': [op, who, arg], 'changed': changed})
                 return
+            # every public attribute (values and identities) of the defaults and of the DeprecatedRule objects the service constructed
+            ctx.count('attribute_snapshots_compared')
+            if case['with_dep'] and meta in META_LEGACY:
+                ctx.count('legacy_metadata_snapshots_compared')
+            if case['with_dep'] and meta in META_SHARED:
+                ctx.count('shared_deprecated_rule_snapshots_compared')
+            why = altered(a0, shared)
+            if why:
+                ctx.violation(why[0], case, dict(why[1], step=i, op=[op, who, arg]))
+                return
             if judge is not None and i not in judge:
                 continue
             for wi, ww in enumerate(worlds):
@@ -348,7 +520,7 @@ def run_history(ctx, case):
                     ctx.count('recoveries_judged')
                 got = decisions(ww['enf'])
                 fresh = policy.Enforcer(ww['tree'].conf(policy_dirs=ww['dirs'], enforce_new_defaults=ww['flag']), **enforcer_kwargs(ww['ow']))
-                fresh.register_defaults(make_defaults(policy, case['with_dep'], case.get('dshape', 0)))
+                fresh.register_defaults(make_defaults(policy, case['with_dep'], case.get('dshape', 0), case.get('meta', 0)))
                 want = decisions(fresh)
                 ctx.count('steps_compared')
                 pg, pw = printed(ww['enf']), printed(fresh)
@@ -386,8 +558,9 @@ def check_overlap(ctx, case):
     its own thread: each ends up with the policy of a single load, and the shared objects stay as they were."""
     from oslo_policy import policy
     from pv.mon import overlap
-    shared = make_defaults(policy, case['with_dep'], case.get('dshape', 0))
+    shared = make_defaults(policy, case['with_dep'], case.get('dshape', 0), case.get('meta', 0))
     s0 = snap(shared)
+    a0 = snap_all(shared)
     trees, want = [], []
     try:
         for cfg_ in case['enforcers']:
@@ -396,7 +569,7 @@ def check_overlap(ctx, case):
                 tree.write('policy.yaml', CONTENTS[cfg_['initial']], 'json')
             trees.append(tree)
             fresh = policy.Enforcer(tree.conf(policy_dirs=[], enforce_new_defaults=cfg_['flag']))
-            fresh.register_defaults(make_defaults(policy, case['with_dep'], case.get('dshape', 0)))
+            fresh.register_defaults(make_defaults(policy, case['with_dep'], case.get('dshape', 0), case.get('meta', 0)))
             want.append(decisions(fresh))
 
         def mk(i):
@@ -425,6 +598,10 @@ def check_overlap(ctx, case):
                     return
         if snap(shared) != s0:
             ctx.violation('caller-owned-default-mutated', case, dict(detail, after='two enforcers loading at the same time'))
+            return
+        why = altered(a0, shared)
+        if why:
+            ctx.violation(why[0], case, dict(detail, after='two enforcers loading at the same time', **why[1]))
     finally:
         for t in trees:
             t.cleanup()
@@ -554,8 +731,77 @@ def dir_case(r, tag):
     return dict(s='D', with_dep=r.random() < 0.8, dshape=r.randrange(24), enforcers=enforcers, history=hist, judge=judge, tag=tag)
 
 
+BOUNDS_M = {'quick': dict(nM=64), 'thorough': dict(nM=4000)}
+
+
+def m_cases():
+    """Stratum M (systematic): every spelling of the deprecation metadata x what the first enforcer's main file defines (no file, an unrelated
+    name, the deprecated name, the new name, ...) x one or two enforcers registered with the SAME objects x the flavour of the first
+    load; then an edit and further loads."""
+    idx = 0
+    for meta in range(META):
+        for init in (None, 6, 2, 1, 3, 4):
+            for k in (1, 2):
+                for first in ('load', 'enforce', 'force'):
+                    idx += 1
+                    enforcers = [dict(flag=bool((idx // 2 + j) % 2), initial=init if j == 0 else [None, 6, 2, 5][(idx + j) % 4],
+                                      with_dir=(idx + j) % 3 == 0, dir_initial=[None, 2, 6][(idx // 3) % 3]) for j in range(k)]
+                    hist = [[first, j, idx % 7] for j in range(k)]
+                    hist += [['edit', 0, idx % 9], [['force', 'load', 'enforce'][idx % 3], 0, idx % 7], ['enforce', k - 1, (idx // 2) % 7]]
+                    yield idx, dict(s='M', with_dep=idx % 5 != 0, meta=meta, dshape=idx % 24, enforcers=enforcers, history=hist,
+                                    judge=None if idx % 2 else [len(hist) - 1])
+
+
+def m_case(r, tag):
+    """Stratum M (random): 1-3 enforcers (own options, main file or none, no directory / one directory file / two or three of them) over
+    one list of objects in a random spelling of the metadata; histories over load / forced load / enforce / edits."""
+    k = r.randint(1, 3)
+    enforcers = []
+    for _ in range(k):
+        e = dict(flag=r.random() < 0.5, initial=r.choice([None, None, 0, 1, 2, 3, 4, 5, 6]), with_dir=r.random() < 0.5,
+                 dir_initial=r.choice([None, 1, 2, 3, 5]))
+        if r.random() < 0.3:
+            nfiles = r.randint(2, 3)
+            e.update(initial=None, dir_initial=None, with_dir=True, overwrite=r.choice([None, True]),
+                     dmain=None if r.random() < 0.4 else [r.randrange(len(DCONTENTS)), r.randrange(3)],
+                     dir_files=[[n, r.randrange(len(DCONTENTS)), r.randrange(3)] for n in sorted(r.sample(DFILES, nfiles))])
+        enforcers.append(e)
+    hist = []
+    for _ in range(r.randint(3, 10)):
+        who = r.randrange(k)
+        op = r.choice(['load', 'load', 'force', 'force', 'enforce', 'enforce', 'edit', 'editdir', 'rmmain'])
+        if enforcers[who].get('dir_files') and op in ('edit', 'editdir', 'rmmain'):
+            nf = len(enforcers[who]['dir_files'])
+            hist.append(r.choice([['touch', who, r.randrange(nf + 1)], ['editfile', who, [r.randrange(-1, nf), r.randrange(len(DCONTENTS)), r.randrange(3)]]]))
+        else:
+            hist.append([op, who, r.randrange(40)])
+    n = len(hist)
+    judge = None if r.random() < 0.4 else sorted({i for i in range(n) if r.random() < 0.3} | {n - 1})
+    return dict(s='M', with_dep=r.random() < 0.85, meta=r.randrange(META), dshape=r.randrange(24), enforcers=enforcers, history=hist,
+                judge=judge, tag=tag)
+
+
 def run(ctx):
     contracts.load_rules_keeps_defaults()
+    # M first (cheap): spellings of the deprecation metadata, shared DeprecatedRule objects, documented defaults
+    ctx.reserve(0.2)
+    for idx_m, case in m_cases():
+        if not ctx.mine(idx_m):
+            continue
+        if ctx.expired():
+            break
+        run_history(ctx, case)
+        if idx_m % 50 == 0:
+            ctx.sample(case, 'M')
+    for i in range(BOUNDS_M[ctx.tier]['nM'] // ctx.nshards + 1):
+        if ctx.expired():
+            break
+        tag = '%s.%d.%d' % (ctx.tier, ctx.shard, i)
+        case = m_case(ctx.sub_rnd('M', tag), tag)
+        run_history(ctx, case)
+        if i % 5 == 0:
+            ctx.sample(case, 'M')
+    ctx.stratum('M', exhaustive=False)
     ctx.reserve(0.8)
     b = BOUNDS[ctx.tier]
     alphabet = [(op, who) for op in OPS for who in (0, 1)]
